@@ -41,6 +41,7 @@ def run(chk):
     joinfam.random_join(chk, KINDS, "random-small-m", runs=16 if quick else 60, length=150, nitems=120, ms=[1, 2, 3, 4, 5, 7])
     joinfam.random_join(chk, KINDS, "random-large-m", runs=3 if quick else 12, length=30, nitems=30, ms=[64, 200],
                         seed=chk.seed + 1)
+    joinfam.big_join(chk, ["smh", "ss_"])
     import densfam
     densfam.c04_part(chk, quick)
     chk.cov["exhaustive"] = False
